@@ -18,7 +18,7 @@ from .. import common
 from ..common import sig_key
 
 LEVEL = "fault_enumeration"
-RULE = "Canary differentiations (nested scalar derivative exposing level confusion, Hessian, container gradient, jvp, sparse/dense mix, checkpoint, deriv-of-grad, FFT Jacobian) are evaluated in a fresh subprocess (reference) and again after every fault / history step in a long-lived process; equality is bitwise. Faults: every k-th user-primitive call of 3 forward programs, every k-th rule application of their backward passes, trace exit via warning->error, and a private exception raised at every LINE event inside autograd/ of 3 victim programs (exhaustive per victim), each escaping to top level or caught by an enclosing differentiation that retries (depth 1-3, both modes); re-entrant use inside rules and forward functions; random histories mixing canaries, failing calls, primitive registrations and deprecated APIs, with registry snapshots. Non-trivial iff a fault was actually injected (exception observed) or a history step executed; distinct = distinct (fault class, victim, fault index) resp. history signatures."
+RULE = "Canary differentiations (outcomes under warnings-as-errors evaluated first, nested scalar derivative exposing level confusion, Hessian, container gradient, jvp, sparse/dense mix, checkpoint, deriv-of-grad, FFT Jacobian, rfft/irfft gradients, r_/c_, eigh eigenvectors, the bundled checker on a rule off by 5e-5) together with the ambient process state (np.geterr, print options, warnings filter count, recursion limit, simple module-level constants of every autograd module) are evaluated in a fresh subprocess (reference) and again after every fault / history step in a long-lived process; equality is bitwise. Faults: every k-th user-primitive call of 3 forward programs, every k-th rule application of their backward passes, trace exit via warning->error, and a private exception raised at every LINE event inside autograd/ of 3 victim programs (exhaustive per victim), each escaping to top level or caught by an enclosing differentiation that retries (depth 1-3, both modes); re-entrant use inside rules and forward functions; random histories mixing canaries, failing calls, primitive registrations and deprecated APIs, with registry snapshots; the whole G-prim catalogue pulled back / pushed forward twice in one process (catalogue order, then reverse order, then twice under warnings-as-errors) and once more in a fresh interpreter in reverse order, outcomes (bits or exception type) compared per configuration. Non-trivial iff a fault was actually injected (exception observed) or a history step executed; distinct = distinct (fault class, victim, fault index) resp. history signatures."
 ASSUMPTIONS = ["asynchronous exceptions between bytecodes of one line are not injected (LINE granularity)", "bitwise reproducibility across processes assumes single-threaded BLAS (OMP/OPENBLAS threads = 1, set by the runner)"]
 EXHAUSTIVE = {"C19": "all LINE fault points of each victim; all k for forward-call and rule-application faults"}
 
@@ -81,7 +81,68 @@ def canaries():
     def K10():
         return elementwise_grad(lambda x: anp.where(x > 0, x**2, anp.exp(x)))(x3)
 
-    return {"K1": K1, "K2": K2, "K3": K3, "K4": K4, "K5": K5, "K6": K6, "K7": K7, "K8": K8, "K9": K9, "K10": K10}
+    def K11():
+        # the bundled checker on a rule that is off by 5e-5 (relative): rejected in a fresh interpreter
+        from autograd.extend import defvjp, primitive
+        from autograd.test_util import check_grads
+
+        P = primitive(lambda x: x * 2.0)
+        defvjp(P, lambda ans, x: lambda g: g * 2.0001)
+        state = onp.random.get_state()
+        onp.random.seed(12345)
+        try:
+            check_grads(P, modes=["rev"], order=1)(onp.array([0.7, -1.3, 2.1]))
+            return onp.array(1.0)  # accepted
+        except AssertionError:
+            return onp.array(0.0)  # rejected
+        finally:
+            onp.random.set_state(state)
+
+    def K12():
+        return grad(lambda x: anp.sum(anp.abs(afft.rfft(x)) ** 2))(onp.array([0.3, -1.2, 0.8, 0.4]))
+
+    def K13():
+        z = onp.array([0.3 + 0.1j, -1.2 + 0.4j, 0.8 - 0.2j])
+        return grad(lambda t: anp.sum(afft.irfft(z * t) ** 2))(0.9)
+
+    def K14():
+        return grad(lambda x: anp.sum(anp.r_[x, x * 2.0] ** 2) + anp.sum(anp.c_[x, x] * 1.5))(x3)
+
+    def K15():
+        a = onp.array([[2.0, 0.3, 0.1], [0.3, 1.0, 0.2], [0.1, 0.2, 3.0]])
+        return grad(lambda t: anp.sum(anp.linalg.eigh(a * t)[1][:, 0] * onp.array([1.0, 2.0, 3.0])) + anp.sum(anp.sqrt(t * onp.array([1.0, 4.0]))))(0.8)
+
+    def K0():
+        # outcomes with warnings promoted to errors (evaluated FIRST in every process: a warn-once flag makes
+        # the first evaluation differ from all later ones). 0.0 = raised, otherwise a checksum of the value
+        out = []
+        with warnings.catch_warnings():
+            warnings.simplefilter("error")
+            for thunk in (lambda: grad(lambda x: anp.sum(anp.r_[x, x * 2.0] ** 2))(x3), lambda: grad(lambda x: anp.sum(anp.c_[x, x] ** 2))(x3), lambda: grad(lambda x: 3.0)(1.0),
+                          lambda: grad(lambda x: anp.sum(anp.sqrt(x)))(onp.array([0.0, 4.0])), lambda: make_jvp(lambda x: anp.sum(anp.r_[x, 1.0]))(x3)(x3)[1],
+                          lambda: grad(lambda x: anp.sum(anp.linalg.norm(anp.outer(x, x), "nuc")))(x3), lambda: elementwise_grad(lambda x: anp.where(x > 0, anp.log(x), x))(onp.array([0.0, 1.0]))):
+                try:
+                    out.append(float(onp.sum(onp.asarray(thunk(), dtype=float))) + 1.0)
+                except Exception:
+                    out.append(0.0)
+        return onp.array(out)
+
+    return {"K0": K0, "K1": K1, "K2": K2, "K3": K3, "K4": K4, "K5": K5, "K6": K6, "K7": K7, "K8": K8, "K9": K9, "K10": K10, "K11": K11, "K12": K12, "K13": K13, "K14": K14, "K15": K15}
+
+
+def ambient_state():
+    """Process-wide state that a differentiation call must leave as it found it: NumPy's floating-point error
+    handling and print options, the warnings filter list, the recursion limit, and every simple module-level
+    constant of the loaded autograd modules (tolerances, flags)."""
+    st = {"np.geterr": repr(sorted(onp.geterr().items())), "np.printoptions": repr(sorted((k, repr(v)) for k, v in onp.get_printoptions().items())), "recursionlimit": sys.getrecursionlimit(), "warnings.filters": len(warnings.filters)}
+    for name, mod in sorted(sys.modules.items()):
+        if (name == "autograd" or name.startswith("autograd.")) and mod is not None:
+            for k, v in sorted(vars(mod).items()):
+                if k.startswith("__"):
+                    continue
+                if isinstance(v, (int, float, complex, str, bool, type(None))) or (isinstance(v, (tuple, frozenset)) and len(v) < 20 and all(isinstance(t, (int, float, str, bool, type(None))) for t in v)):
+                    st["%s.%s" % (name, k)] = repr(v)
+    return st
 
 
 def canary_values(names=None):
@@ -111,9 +172,27 @@ class CanaryChecker:
         self.names = sorted(self.funs)
         self.i = 0
         self.checked = 0
+        self.ambient = None
 
     def check(self, names):
         """Return None or (name, detail)."""
+        amb = ambient_state()
+        if self.ambient is None:
+            self.ambient = amb
+        elif any(amb[k] != self.ambient[k] for k in amb if k in self.ambient):
+            # (constants of modules imported later simply appear: only keys seen before are compared)
+            ch = sorted(k for k in amb if k in self.ambient and amb[k] != self.ambient[k])
+            detail = "process-wide state changed: " + "; ".join("%s: %s -> %s" % (k, self.ambient.get(k), amb.get(k)) for k in ch[:6])
+            # restore what can be restored so that one leak is reported once
+            try:
+                onp.seterr(**dict(eval(self.ambient["np.geterr"])))
+            except Exception:
+                pass
+            self.ambient = ambient_state()
+            return "ambient", detail
+        else:
+            for k in amb:
+                self.ambient.setdefault(k, amb[k])
         with warnings.catch_warnings():
             warnings.simplefilter("ignore")
             for k in names:
@@ -739,13 +818,59 @@ def run_histories(res, chk, seed, idx, n, tier):
                 raise AssertionError("deprecated defvjp grad %r" % (r,))
         return "registered"
 
+    def ev_rfft_options(rng):
+        # rarely used options of rules that keep helper arrays: norm="forward"/"ortho", several lengths
+        import autograd.numpy.fft as afft
+
+        xs = onp.array([0.3, -1.2, 0.8, 0.4])
+        for nm in ("forward", "ortho", "backward", None):
+            grad(lambda x: anp.sum(anp.abs(afft.rfft(x, norm=nm)) ** 2))(xs)
+            grad(lambda x: anp.sum(anp.abs(afft.rfft(x, None, -1, nm)) ** 2))(xs)
+            grad(lambda t: anp.sum(afft.irfft(onp.array([0.3 + 0.1j, -1.2 + 0.4j, 0.8 - 0.2j]) * t, norm=nm) ** 2))(0.9)
+            grad(lambda x: anp.sum(anp.abs(afft.rfft2(anp.reshape(x, (2, 2)), norm=nm)) ** 2))(xs)
+
+    def ev_fail_bad_cotangent(rng):
+        # a pull-back handed a cotangent of the wrong shape fails somewhere inside the rule
+        a = onp.array([[2.0, 0.3, 0.1], [0.3, 1.0, 0.2], [0.1, 0.2, 3.0]])
+        which = int(rng.integers(0, 4))
+        if which == 0:
+            vj, _ = make_vjp(lambda m: anp.linalg.eigh(m))(a)
+            vj((onp.ones(3), onp.ones((2, 5))))
+        elif which == 1:
+            vj, _ = make_vjp(lambda m: anp.linalg.svd(m, full_matrices=False))(a)
+            vj((onp.ones((3, 3)), onp.ones(3), onp.ones((4, 2))))
+        elif which == 2:
+            vj, _ = make_vjp(lambda m: anp.linalg.inv(m))(a)
+            vj(onp.ones((2, 5)))
+        else:
+            vj, _ = make_vjp(lambda m: anp.sqrt(anp.sum(m * m, axis=0)))(a)
+            vj(onp.ones((4, 7)))
+
+    def ev_warnings_as_errors(rng):
+        # the same differentiations with warnings promoted to errors, twice: the outcome (value or the
+        # exception type) must be the same both times
+        outs = []
+        for rep in range(2):
+            with warnings.catch_warnings():
+                warnings.simplefilter("error")
+                o = []
+                for thunk in (lambda: grad(lambda x: anp.sum(anp.r_[x, x * 2.0] ** 2))(x3), lambda: grad(lambda x: anp.sum(anp.c_[x, x] ** 2))(x3), lambda: grad(lambda x: anp.sum(anp.sqrt(x)))(onp.array([0.0, 4.0])),
+                              lambda: grad(lambda x: 3.0)(1.0), lambda: grad(lambda x: anp.sum(anp.log(x)))(onp.array([0.0, 1.0]))):
+                    try:
+                        o.append(common.vhash(onp.asarray(thunk())))
+                    except Exception as e:
+                        o.append("raised:" + type(e).__name__)
+                outs.append(o)
+        if outs[0] != outs[1]:
+            raise AssertionError("outcomes under warnings-as-errors differ between the first and the second evaluation: %s vs %s" % (outs[0], outs[1]))
+
     def ev_ok_work(rng):
         hessian(lambda x: anp.sum(anp.sin(x) * x))(x3)
         make_vjp(lambda x: anp.cumsum(x))(x3)[0](onp.ones(3))
 
     events = {"fail_user": ev_fail_user, "fail_nested": ev_fail_nested, "fail_rule": ev_fail_rule, "fail_norule": ev_fail_norule, "fail_type": ev_fail_type, "fail_nonscalar": ev_fail_nonscalar,
               "fail_warning": ev_fail_warning, "fail_warning_nested": ev_fail_warning_nested, "fail_setitem": ev_fail_setitem, "caught_inside": ev_fail_caught_inside, "reentrant_rule": ev_reentrant_rule,
-              "reentrant_forward": ev_reentrant_forward, "recursion": ev_recursion, "register": ev_register, "deprecated": ev_deprecated, "ok_work": ev_ok_work}
+              "reentrant_forward": ev_reentrant_forward, "recursion": ev_recursion, "register": ev_register, "deprecated": ev_deprecated, "ok_work": ev_ok_work, "rfft_options": ev_rfft_options, "fail_bad_cotangent": ev_fail_bad_cotangent, "warnings_as_errors": ev_warnings_as_errors}
     names = sorted(events)
     for h in range(idx, total, n):
         rng = onp.random.Generator(onp.random.PCG64([seed, h, 79]))
@@ -813,6 +938,103 @@ def run_histories(res, chk, seed, idx, n, tier):
             res["samples"].append({"history": hist, "trace_stack_top_after": registry_snapshot()["top"]})
 
 
+def _catalogue_prepared(seed, idx, n, tier):
+    from ..gen import catalogue
+    from . import prim as P
+
+    crng = onp.random.Generator(onp.random.PCG64([seed, 0, 131]))
+    cs = [c for c in catalogue.all_cases(crng, cx=False) if c.get("argnum") is not None and c["form"] != "special" and c.get("point", "regular") == "regular"]
+    if tier == "thorough":
+        cs += [c for c in catalogue.all_cases(crng, cx=True) if c.get("argnum") is not None and c["form"] != "special"]
+    mine = [c for k, c in enumerate(cs) if k % n == idx]
+    prepared = []
+    for k, c in enumerate(mine):
+        try:
+            prep, out = P.prepare(c)
+        except Exception:
+            continue
+        if out is not None:
+            continue
+        ncall, acall, x0, y0, F = prep
+        g = common.rand_like(onp.random.Generator(onp.random.PCG64([seed, k, 137])), y0)
+        v = common.rand_like(onp.random.Generator(onp.random.PCG64([seed, k, 139])), x0)
+        prepared.append((c, acall, x0, g, v))
+    return prepared
+
+
+def _catalogue_outcome(acall, x0, g, v, strict):
+    from autograd.core import make_jvp, make_vjp
+
+    out = []
+    for mode in ("rev", "fwd"):
+        try:
+            with warnings.catch_warnings():
+                warnings.simplefilter("error" if strict else "ignore")
+                with onp.errstate(all="ignore"):
+                    r = make_vjp(acall, x0)[0](g) if mode == "rev" else make_jvp(acall, x0)(v)[1]
+            out.append("ok:" + common.vhash(r))
+        except Exception as e:
+            out.append("raised:" + type(e).__name__)
+    return out
+
+
+def run_catalogue_twice(res, seed, idx, n, tier):
+    """State that survives between calls (caches keyed too coarsely, helper arrays changed in place, warn-once
+    flags): every configuration of the G-prim catalogue is pulled back twice in one process - first in
+    catalogue order, then (after everything else ran) in reverse order, the second time also under
+    warnings-as-errors - and the outcomes (bits of the result, or the exception type) must coincide."""
+    from autograd.core import make_jvp, make_vjp
+
+    from ..gen import catalogue
+    from . import prim as P
+
+    prepared = _catalogue_prepared(seed, idx, n, tier)
+    outcome = _catalogue_outcome
+    first = [outcome(a, x, g, v, False) for (_, a, x, g, v) in prepared]
+    # the same configurations in a FRESH interpreter, evaluated in the opposite order: a cache filled by one
+    # configuration and read by another shows up as a difference between the two processes
+    fresh_rev = None
+    try:
+        env = dict(os.environ)
+        env["PYTHONPATH"] = common.VERIF_DIR + os.pathsep + env.get("PYTHONPATH", "")
+        r = subprocess.run([sys.executable, "-m", "vf.engines.history", "--catalogue-pass", str(seed), str(idx), str(n), tier], capture_output=True, text=True, timeout=900, cwd=common.VERIF_DIR, env=env)
+        if r.returncode == 0:
+            fresh_rev = json.loads(r.stdout.strip().splitlines()[-1])
+        else:
+            res["sets"].setdefault("harness_errors", set()).add("catalogue pass subprocess: " + r.stderr[-300:])
+    except Exception:
+        res["sets"].setdefault("harness_errors", set()).add(traceback.format_exc()[-300:])
+    if fresh_rev is None or len(fresh_rev) != len(prepared):
+        res["not_judged"]["harness_error"] = res["not_judged"].get("harness_error", 0) + 1
+        fresh_rev = None
+    order = list(range(len(prepared)))[::-1]
+    second = {}
+    strict1 = {}
+    strict2 = {}
+    for i in order:
+        _, a, x, g, v = prepared[i]
+        second[i] = outcome(a, x, g, v, False)
+    for i in order:
+        _, a, x, g, v = prepared[i]
+        strict1[i] = outcome(a, x, g, v, True)
+    for i in range(len(prepared)):
+        _, a, x, g, v = prepared[i]
+        strict2[i] = outcome(a, x, g, v, True)
+    for i, (c, a, x, g, v) in enumerate(prepared):
+        res["evaluations"] += 1
+        sig = {"engine": "history", "fault": "catalogue_twice", "prim": c["prim"], "ns": c["ns"], "kw": {k: P.classify(t) for k, t in c["kwargs"].items()}}
+        case = {"kind": "catalogue_twice", "case": P.encode_case(c), "seed": seed}
+        if fresh_rev is not None and first[i] != fresh_rev[i]:
+            res["violations"].append({"sig": dict(sig, symptom="history_dependence", fresh="reverse_order"), "case": case, "detail": "this process (catalogue order) %s, fresh interpreter evaluating the catalogue in reverse order %s" % (first[i], fresh_rev[i])})
+        elif first[i] != second[i]:
+            res["violations"].append({"sig": dict(sig, symptom="history_dependence"), "case": case, "detail": "first evaluation %s, evaluation after the rest of the catalogue ran %s" % (first[i], second[i])})
+        elif strict1[i] != strict2[i]:
+            res["violations"].append({"sig": dict(sig, symptom="history_dependence", strict=True), "case": case, "detail": "under warnings-as-errors: first evaluation %s, second %s" % (strict1[i], strict2[i])})
+        else:
+            res["judged"][sig_key(sig)] = res["judged"].get(sig_key(sig), 0) + 1
+    res["counters"]["catalogue_twice_cases"] = res["counters"].get("catalogue_twice_cases", 0) + len(prepared)
+
+
 def run_shard(pid, tier, seed, idx, n):
     common.setup_repo()
     res = _new_result()
@@ -827,6 +1049,10 @@ def run_shard(pid, tier, seed, idx, n):
         run_bomb_faults(res, chk, idx, n)
         run_retry_same_closure(res, chk, idx, n)
         run_line_faults(res, chk, idx, n, tier)
+        run_catalogue_twice(res, seed, idx, n, tier)
+        b = chk.rotating(full=True)
+        if b:
+            res["violations"].append({"sig": {"engine": "history", "fault": "catalogue_twice", "symptom": "history_dependence", "canary": b[0]}, "case": {"kind": "startup"}, "detail": "after the catalogue ran twice: " + b[1]})
     except Exception:
         res["not_judged"]["harness_error"] = res["not_judged"].get("harness_error", 0) + 1
         res["sets"].setdefault("harness_errors", set()).add(traceback.format_exc()[-600:])
@@ -845,6 +1071,10 @@ def replay(pid, case):
     ref = fresh_reference()
     chk = CanaryChecker(ref)
     k = case["kind"]
+    if k == "catalogue_twice":
+        run_catalogue_twice(res, case.get("seed", 0), 0, 1, "quick")
+        res["violations"] = [v for v in res["violations"] if v["case"].get("case") == case.get("case")]
+        return res
     if k == "line":
         LF = LineFaults()
         LF.install()
@@ -897,6 +1127,18 @@ def post(pid, tier, agg):
 
 
 if __name__ == "__main__":
+    if "--catalogue-pass" in sys.argv:
+        warnings.filterwarnings("ignore")
+        common.setup_repo()
+        k0 = sys.argv.index("--catalogue-pass")
+        seed_, idx_, n_, tier_ = int(sys.argv[k0 + 1]), int(sys.argv[k0 + 2]), int(sys.argv[k0 + 3]), sys.argv[k0 + 4]
+        prepared_ = _catalogue_prepared(seed_, idx_, n_, tier_)
+        outs_ = [None] * len(prepared_)
+        for i_ in range(len(prepared_))[::-1]:
+            _, a_, x_, g_, v_ = prepared_[i_]
+            outs_[i_] = _catalogue_outcome(a_, x_, g_, v_, False)
+        print(json.dumps(outs_))
+        sys.exit(0)
     if "--canaries" in sys.argv:
         warnings.filterwarnings("ignore")
         common.setup_repo()
